@@ -479,13 +479,24 @@ def run(ctx) -> None:
     pm = parent_map(vic.node)
     defs = local_single_defs(vic)
     branches: dict[str, ast.If] = {}
+    bodies: dict[str, list] = {}
     for n in walk_no_nested(vic.node):
-        if isinstance(n, ast.If) and isinstance(n.test, ast.Compare) and norm_node(n.test.left, vic) == "node.instruction_name":
-            r = norm(n.test.comparators[0])
+        if not isinstance(n, ast.If):
+            continue
+        # `if name == X: A else: B` or, phrased the other way round, `if not name == X: B else: A` / `if name != X: B else: A`
+        t_, neg = n.test, False
+        while isinstance(t_, ast.UnaryOp) and isinstance(t_.op, ast.Not):
+            t_, neg = t_.operand, not neg
+        if isinstance(t_, ast.Compare) and len(t_.ops) == 1 and isinstance(t_.ops[0], (ast.Eq, ast.NotEq)) \
+                and norm_node(t_.left, vic) == "node.instruction_name":
+            if isinstance(t_.ops[0], ast.NotEq):
+                neg = not neg
+            r = norm(t_.comparators[0])
             val = ice.get(r.split(".")[1]) if r.startswith("InterpreterCommandEnum.") else \
-                (n.test.comparators[0].value if isinstance(n.test.comparators[0], ast.Constant) else None)
+                (t_.comparators[0].value if isinstance(t_.comparators[0], ast.Constant) else None)
             if val is not None:
                 branches[str(val)] = n
+                bodies[str(val)] = n.orelse if neg else n.body
     if len(branches) < 4:
         raise AnchorError(f"visit_InterpreterCommandNode: only {len(branches)} command branches found (floor 4)")
     for nm, br in sorted(branches.items()):
@@ -496,7 +507,7 @@ def run(ctx) -> None:
         if pub is None:
             pub = Spec("none", "", "no specification (validator None)")
         raises = []
-        for st in br.body:
+        for st in bodies[nm]:
             for x in ast.walk(st):
                 if isinstance(x, ast.Raise):
                     raises.append(x)
